@@ -12,7 +12,8 @@ PROPERTY = 'C04'
 LEVEL = 'exploration'
 RULE = ('grid: allowance s in {0,1,60,300,86400} x judged bound in {Conditions.NotBefore, Conditions.NotOnOrAfter, SCD.NotOnOrAfter, SCD.NotBefore, '
         'SessionNotOnOrAfter, IssueInstant(+/-), NotBefore>NotOnOrAfter on Conditions / SCD} x placement of the bound at the reject edge and the accept edge '
-        '-3,-2,-1,0,+1,+2,+3 s and far values x presence subsets of the other bounds x 4 timestamp spellings (Z, no zone, fractional with/without Z); '
+        '-3,-2,-1,0,+1,+2,+3 s and far values x presence subsets of the other bounds x 5 timestamp spellings (Z, no zone, fractional with/without Z); two AuthnStatements with the judged SessionNotOnOrAfter on either; '
+        '7 zone-offset spellings (+02:00 .. +14:00, -05:00, -11:00, +00:00) of bounds really passed / not reached by 5 s .. 15 h (reject side only); '
         'generated: every bound present/absent with its own offset. Instants within 1 s of an edge are run but not judged. '
         'Non-trivial = a bound within s+3 of an edge or an ordering violation; distinct = distinct row.')
 ASSUMPTIONS = ['frozen clock (DESIGN 2.4); xmlsec1 stand-in for the response signature',
@@ -23,9 +24,15 @@ DAY = 86400
 ALLOWANCES = [0, 1, 60, 300, 86400]
 BOUNDS = ['cnb', 'cnooa', 'snooa', 'snb', 'sess']
 SPELL = ['Z', '', '.5Z', '.123456', '.0Z']
+# xs:dateTime spellings with a numeric zone offset: the same instant written in local time.  Only the reject side is judged for them (a receiver may refuse the
+# spelling, it may not read another instant out of it)
+ZONED = [('+02:00', 7200), ('-05:00', -18000), ('.250+01:00', 3600), ('+00:00', 0), ('+05:30', 19800), ('-11:00', -39600), ('+14:00', 50400)]
 
 
 def stamp(t, spell):
+    if spell >= 100:
+        suffix, off = ZONED[(spell - 100) % len(ZONED)]
+        return time.strftime('%Y-%m-%dT%H:%M:%S', time.gmtime(int(t) + off)) + suffix
     sp = SPELL[spell % len(SPELL)]
     base = time.strftime('%Y-%m-%dT%H:%M:%S', time.gmtime(int(t)))
     return base + sp
@@ -40,10 +47,12 @@ def judge(case):
     """-> ('reject' | 'accept' | 'unjudged', reason) from the statement"""
     now = spside.NOW
     s = case['s']
-    b = case['bounds']          # kind -> epoch or None
+    b = dict(case['bounds'])          # kind -> epoch or None
+    if not case.get('stmts'):
+        b['sess2'] = None       # there is no second AuthnStatement to carry it
     must_reject = []
     comfortable = True
-    for k in ('cnooa', 'snooa', 'sess'):
+    for k in ('cnooa', 'snooa', 'sess', 'sess2'):
         if b.get(k) is not None:
             if now - s > b[k] + 1:
                 must_reject.append(k + ' passed')
@@ -66,7 +75,7 @@ def judge(case):
         comfortable = False
     if must_reject:
         return 'reject', must_reject
-    profile = b.get('snooa') is not None and b.get('snb') is None
+    profile = b.get('snooa') is not None and b.get('snb') is None and not case.get('stmts') and case.get('spell', 0) < 100
     if comfortable and profile:
         return 'accept', []
     return 'unjudged', []
@@ -77,7 +86,9 @@ def run(case):
     s = case['s']
     sp = spside.sp_for({'accepted_time_diff': s} if s else {})
     clock.set_now(now)
-    b = case['bounds']
+    b = dict(case['bounds'])
+    if not case.get('stmts'):
+        b['sess2'] = None
     spell = case.get('spell', 0)
     r, a = build.standard(now)
     r['issue_instant'] = stamp(case['ii'], spell)
@@ -98,6 +109,12 @@ def run(case):
     if b.get('sess') is not None:
         st['session_not_on_or_after'] = stamp(b['sess'], spell)
     a['authn'] = [st]
+    # further AuthnStatements (step-up style): 'stmts' = 1 a second statement after the first, 2 before it; its SessionNotOnOrAfter is bounds['sess2'] (absent when None)
+    if case.get('stmts'):
+        st2 = {'authn_instant': stamp(now - 3, 0), 'session_index': 's2', 'class_ref': build.PASSWORD}
+        if b.get('sess2') is not None:
+            st2['session_not_on_or_after'] = stamp(b['sess2'], spell)
+        a['authn'] = [st, st2] if case['stmts'] == 1 else [st2, st]
     doc = build.render(r, [a], sign_response=1)
     v = spside.deliver(sp, doc)
     want, why = judge(case)
@@ -111,7 +128,9 @@ def run(case):
                             % (s, v[1], v[2], dict((k, x - now) for k, x in b.items() if x is not None), case['ii'] - now, SPELL[spell % len(SPELL)]))
     if v[0] == 'accept':
         got = v[1].session_info()['not_on_or_after']
-        if b.get('sess') is not None:
+        if case.get('stmts'):
+            exp = None      # which statement's bound is the session expiry is not stated for several statements
+        elif b.get('sess') is not None:
             exp = b['sess']
         elif b.get('cnooa') is not None:
             exp = b['cnooa']
@@ -142,6 +161,19 @@ def grid():
                     bounds[judged] = p
                     out.append({'s': s, 'judged': judged, 'subset': name, 'bounds': bounds, 'ii': now, 'spell': (i + len(out)) % len(SPELL),
                                 'near': abs(p - now) <= s + 3})
+        # several AuthnStatements: the judged SessionNotOnOrAfter sits on the second / first of two statements, the other one is comfortable or absent
+        for stmts in (1, 2):
+            for other in (comfy['sess'], None):
+                for p in [now - s + k for k in ks] + [now - s - FAR, now - 10 * DAY, now + s + FAR]:
+                    out.append({'s': s, 'judged': 'sess2', 'subset': 'all', 'bounds': dict(comfy, sess=other, sess2=p), 'ii': now, 'spell': len(out) % len(SPELL), 'stmts': stmts,
+                                'near': abs(p - now) <= s + 3})
+        # zone-offset spellings of a bound that has really passed / is really not yet reached, by less and by more than the offset
+        for z in range(len(ZONED)):
+            for judged in BOUNDS:
+                for dist in (5, 1800, 3 * 3600, 15 * 3600):
+                    p = now - s - dist if judged in ('cnooa', 'snooa', 'sess') else now + s + dist
+                    out.append({'s': s, 'judged': 'zoned-' + judged, 'subset': 'all', 'bounds': dict(comfy, **{judged: p}), 'ii': now, 'spell': 100 + z, 'near': True})
+            out.append({'s': s, 'judged': 'zoned-comfortable', 'subset': 'all', 'bounds': dict(comfy), 'ii': now, 'spell': 100 + z, 'near': True})
         # IssueInstant
         for sign in (-1, 1):
             for k in ks + [FAR, -FAR]:
@@ -168,9 +200,10 @@ def generated_strategy():
     def build_case(s):
         opt = lambda: st.one_of(st.none(), offsets(s).map(lambda o: now + o))
         return st.fixed_dictionaries({'s': st.just(s), 'judged': st.just('multi'),
-                                      'bounds': st.fixed_dictionaries({'cnb': opt(), 'cnooa': opt(), 'snooa': st.one_of(opt(), offsets(s).map(lambda o: now + o)), 'snb': st.one_of(st.none(), st.none(), opt()), 'sess': opt()}),
+                                      'bounds': st.fixed_dictionaries({'cnb': opt(), 'cnooa': opt(), 'snooa': st.one_of(opt(), offsets(s).map(lambda o: now + o)), 'snb': st.one_of(st.none(), st.none(), opt()), 'sess': opt(), 'sess2': opt()}),
+                                      'stmts': st.sampled_from([0, 0, 0, 1, 2]),
                                       'ii': st.one_of(st.just(now), st.sampled_from([-1, 1]).flatmap(lambda sg: st.integers(-5, 5).map(lambda k: now + sg * (DAY + s + k)))),
-                                      'spell': st.integers(0, len(SPELL) - 1), 'near': st.just(True)})
+                                      'spell': st.one_of(st.integers(0, len(SPELL) - 1), st.integers(0, len(SPELL) - 1), st.integers(100, 100 + len(ZONED) - 1)), 'near': st.just(True)})
     return st.sampled_from(ALLOWANCES).flatmap(build_case)
 
 
